@@ -210,11 +210,24 @@ def oracle_family(ctx, fam, rng, problems):
             problems.append((f"{name}: axis_correlation_matrix probing raised {type(e).__name__}: {e}", {}))
 
 
+PINS = ["gwcs/api.py::GWCSAPIMixin.pixel_n_dim",
+        "gwcs/api.py::GWCSAPIMixin.world_n_dim",
+        "gwcs/api.py::GWCSAPIMixin.array_index_to_world",
+        "gwcs/api.py::GWCSAPIMixin.axis_correlation_matrix",
+        "gwcs/api.py::GWCSAPIMixin.pixel_axis_names",
+        "gwcs/api.py::GWCSAPIMixin.world_axis_names",
+        "gwcs/api.py::GWCSAPIMixin.low_level_wcs",
+        "gwcs/api.py::GWCSAPIMixin.serialized_classes",
+        "gwcs/utils.py::_toindex"]
+
+
 def run(ctx):
     from py2coq import gen_api as G, t2
     from lib.common import REPO
     ctx.trusted += ["tools/py2coq translator, GW.Base.{Py,Api}", "tools/checks/C13.py generators, oracle, differ; tools/lib/families.py"]
     ctx.gate()
+    from lib import pins as _pins
+    _pins.check(ctx, PINS)      # wrappers and properties outside the T2-translated set
     ctx.coq_theorems("C13/Toindex", ["toindex_nearest_halfup", "toindex_translate", "toindex_fl_eighths", "toindex_half_minus_ulp_refuted"])
     try:
         gen_src = G.gen(REPO)
